@@ -10,15 +10,16 @@ WT=/tmp/seedwt-$PROP-$NAME
 git -C /repo worktree remove --force $WT >/dev/null 2>&1
 git -C /repo worktree add -q --detach $WT HEAD 2>&1 | grep -v conda
 ok=1
+RACE=""; grep -q -- "-race" $DIR/meta.json && RACE="-race"
 cd $WT
 cp $DIR/demo_test.go ./zz_demo_test.go
-if ! go test -vet=off -count=1 -run TestDemo . >/tmp/sv.$$ 2>&1; then echo "FAIL: demo does not pass on clean HEAD"; tail -5 /tmp/sv.$$; ok=0; fi
+if ! go test $RACE -vet=off -count=1 -run TestDemo . >/tmp/sv.$$ 2>&1; then echo "FAIL: demo does not pass on clean HEAD"; tail -5 /tmp/sv.$$; ok=0; fi
 rm -f zz_demo_test.go
 if ! git apply $DIR/patch.diff; then echo "FAIL: patch does not apply"; ok=0; fi
 if ! go build ./... >/tmp/sv.$$ 2>&1; then echo "FAIL: does not build"; ok=0; fi
 if ! go test -vet=off -count=1 ./... >/tmp/sv.$$ 2>&1; then echo "FAIL: suite fails with the patch"; tail -5 /tmp/sv.$$; ok=0; fi
 cp $DIR/demo_test.go ./zz_demo_test.go
-if go test -vet=off -count=1 -run TestDemo . >/tmp/sv.$$ 2>&1; then echo "FAIL: demo passes with the patch"; ok=0; fi
+if go test $RACE -vet=off -count=1 -run TestDemo . >/tmp/sv.$$ 2>&1; then echo "FAIL: demo passes with the patch"; ok=0; fi
 cd /
 git -C /repo worktree remove --force $WT
 rm -f /tmp/sv.$$
